@@ -32,4 +32,23 @@ def sortedOffs : List Token → Bool
   | a :: b :: r => a.off ≤ b.off && sortedOffs (b :: r)
   | _ => true
 
+def allPos (src : List Char) (o : Outcome) : Bool :=
+  (okTokens o.items).all (posOk (normalizeNewline src).toArray) && sortedOffs (okTokens o.items)
+
+def isCrash : Outcome → Bool
+  | .crash _ _ => true | _ => false
+
+def hasInfix (pat : List Char) : List Char → Bool
+  | [] => pat.isEmpty
+  | c :: cs => pat.isPrefixOf (c :: cs) || hasInfix pat cs
+
+/-- class K of the recorded finding `C08-line-drift` (decidable on the input, an over-approximation of the inputs on which a
+    line break can be consumed without the line counter being advanced, or a multi-line token computes its line from its
+    content): the normalised source contains a multi-line string delimiter, `#[`, a backslash, a backquote, or `e` directly
+    before a line break. -/
+def lineDriftClass (src : List Char) : Bool :=
+  let s := normalizeNewline src
+  hasInfix ['"', '"', '"'] s || hasInfix ['\'', '\'', '\''] s || hasInfix ['#', '['] s || s.contains '\\' || s.contains '`'
+    || hasInfix ['e', '\n'] s
+
 end ErgVerif.C08
